@@ -12,13 +12,14 @@ LEAN_MODULE = 'Proofs.C01'
 THEOREMS = ['Fsic.C01.' + n for n in [
     'parseExpr_map', 'parseStmt_code', 'parseStmt_equation', 'rest_untouched', 'index_denotes', 'index_injective',
     'term_read_exact', 'code_denotes_script', 'equation_denotes_script', 'equation_denotes_code',
-    'replacement_exact', 'replacement_table', 'replacement_untouched', 'keywords_not_replaced',
+    'replacement_exact', 'replacement_table', 'replacement_untouched', 'keywords_not_replaced', 'term_code_ignores_table',
     'evalPass_gauss_seidel', 'evalPass_append', 'assign_writes_lhs', 'evalPass_frame', 'reads_are_terms',
     'pass_reads_writes', 'rel_pos', 'evaluate_order_members', 'evaluate_order_sorted']]
 RULE = ('programs of the gen_scripts grammar: exhaustive small statements (Y = t1 [op t2], calls; stress names x index '
         'forms x term kinds) under rotating LAYOUT_CATALOGUE entries, sampled larger programs (up to 7 equations, '
         'nesting <= 4, multi-line, random layouts), stress programs (two-digit lags/leads, function names that are '
-        'prefixes/suffixes/namespaced versions of replaced ones, Gauss-Seidel chains in non-statement order), '
+        'prefixes/suffixes/namespaced versions of replaced ones, series NAMED exp/log/max/min/abs/np/sqrt/… but not '
+        'called (hand-written and by renaming sampled programs), Gauss-Seidel chains in non-statement order), '
         'sub-streams with verbatim fragments, named periods and LHS offsets, regression cases of two repaired defects '
         '(constant sub-expressions that warn/raise are accepted and evaluated; variable/called-function clashes are '
         'rejected with ParserError), and a stream of still-open known-defect inputs. '
@@ -58,7 +59,7 @@ gs.FUNCS.setdefault('np.exp', np.exp)
 gs.FUNCS.setdefault('np.log', np.log)
 gs.FUNCS.setdefault('np.minimum', np.minimum)
 
-GENERIC_KEYS = ('rejected', 'exception-mismatch', 'value-mismatch', 'write-outside-lhs', 'read-wrong-cell',
+GENERIC_KEYS = ('rejected', 'lags-leads-too-short', 'exception-mismatch', 'value-mismatch', 'write-outside-lhs', 'read-wrong-cell',
                 'series-missing', 'equation-denotes-differently', 'equation-missing')
 
 
@@ -99,6 +100,19 @@ def stress_programs():
     out.append(gs.Program([gs.Equation(V('C'), B('*', T('param', 'alpha_1', None), V('YD'))),
                            gs.Equation(V('YD'), B('-', V('Y'), V('T'))), gs.Equation(V('Y'), B('+', V('C'), V('G'))),
                            gs.Equation(V('T'), B('*', T('param', 'theta', None), V('Y')))]))
+    # series NAMED like functions but not called: ordinary series (`self._exp[t]`), never the replacement table
+    P_, E_ = (lambda n, ix=None: T('param', n, ix)), (lambda n, ix=None: T('error', n, ix))
+    out.append(gs.Program([gs.Equation(Y, B('+', B('*', N('2'), V('exp')), V('log', -1)))]))
+    out.append(gs.Program([gs.Equation(V('Z'), B('+', B('*', P_('log'), V('X')), E_('exp')))]))
+    out.append(gs.Program([gs.Equation(Y, B('+', V('max'), V('min', -1)))]))
+    out.append(gs.Program([gs.Equation(V('max'), B('+', V('X'), N('1'))), gs.Equation(Y, B('*', V('max', -1), N('2')))]))
+    out.append(gs.Program([gs.Equation(V('exp'), B('+', V('exp', -1), N('1')))]))
+    out.append(gs.Program([gs.Equation(Y, B('+', B('+', V('abs'), V('np')), V('sqrt', 1)))]))
+    out.append(gs.Program([gs.Equation(Y, B('*', V('np'), C('np.log', (V('X'),))))]))
+    out.append(gs.Program([gs.Equation(Y, B('+', V('np', -1), N('1'))), gs.Equation(V('Z'), C('np.exp', (gs.Un('-', V('X')),)))]))
+    out.append(gs.Program([gs.Equation(Y, B('*', C('exp', (V('log', -2),)), C('max', (P_('min', 1), E_('abs')))))]))
+    out.append(gs.Program([gs.Equation(V('log'), B('-', P_('exp', -1), C('np.sqrt', (V('max', 10),)))),
+                           gs.Equation(V('min'), B('*', V('log'), E_('float')))]))
     # parameters / errors with offsets, keyword-ish names, lazy constructs
     out.append(gs.Program([gs.Equation(Y, B('+', B('*', T('param', 'in_', -2), V('is_open', 1)), T('error', 'eps_1', -1)))]))
     out.append(gs.Program([gs.Equation(Y, I(V('Pin', -1), B('and', B('>', V('not_X'), N('1')), B('<', V('orx', 1), N('2'))), V('For', -2)))]))
@@ -205,6 +219,13 @@ def quick_cases(ctx):
             lname = 'random'
             L = gs.random_layout(rng)
         cases.append(mkcase(prog, gs.render(prog, L), L.wrap_rhs, stream='sampled:' + lname, seed=seed))
+        if i % 4 == 1:      # the same program with some series renamed to function-looking names it does not call
+            prog2, used = ec.with_function_names(rng, prog)
+            if used:
+                cases.append(mkcase(prog2, gs.render(prog2, L), L.wrap_rhs, stream='fnames:' + lname, seed=seed))
+        if i % 4 == 3:      # ... / with inline verbatim fragments in every equation
+            prog2 = ec.with_inline_verbatim(rng, prog)
+            cases.append(mkcase(prog2, gs.render(prog2, L), L.wrap_rhs, stream='verbatim:' + lname, seed=seed))
     # D. sub-streams: verbatim fragments, named periods, LHS offsets
     rng = ctx.sub_rng('sub')
     n_sub = (450 if quick else 5000) * ctx.scale
@@ -318,7 +339,25 @@ def observe_(case, rep, want_impl=True):
         violate('series-missing', f'model has no series for {missing}')
         rep.case(text, nontrivial=False)
         return impl
+    # the class's own notion of a feasible period (LAGS <= t < n - LEADS) must cover every lag/lead written, otherwise
+    # a period solve() accepts reads a wrapped-around (negative index) or out-of-span cell
+    try:
+        mlags, mleads = int(b.Model.LAGS), int(b.Model.LEADS)
+        if not span and (mlags < lags or mleads < leads):
+            violate('lags-leads-too-short', f'the script reads {lags} period(s) back and {leads} ahead but the class '
+                    f'has LAGS={mlags}, LEADS={mleads}: at its first/last "feasible" period a term is not read at the '
+                    'lag/lead written')
+    except (AttributeError, TypeError, ValueError):
+        violate('lags-leads-too-short', 'the class has no integer LAGS/LEADS')
     # -- S: every feasible period --
+    shadowed = ec.shadowed_function_roots(prog)
+    fl = sorted(set(data0) & set(ec.FUNCTION_LIKE))
+    if fl:
+        rep.dist['series-named-like-function'] += 1
+        for nm in fl:
+            rep.dist['series-name:' + nm] += 1
+    for f in {f for st in eqs for f in ec.verbs_of(st.rhs)}:
+        rep.dist['fragment:' + f] += 1
     wrote = False
     first = None
     for t in range(lags, n - leads):
@@ -356,10 +395,14 @@ def observe_(case, rep, want_impl=True):
             violate('read-wrong-cell', f't={t}: read {bad_r[:4]}, the terms of the script are at {sorted(allowed)}')
         wrote = wrote or bool(w_ref)
         # normalised equations, evaluated by Python itself in symbol order, must give the same pass
-        env = {nm: ec.Ser(v.copy(), span) for nm, v in data0.items()}
-        env.update({'t': ec.TPos(t), 'exp': np.exp, 'log': np.log, 'max': max, 'min': min, 'abs': abs, 'np': np, 'float': float,
-                    'self': m, 'len': len})
+        if shadowed:
+            rep.dist['equation-text:skipped-series-shadows-called-function-root'] += 1
+            continue
+        env = {'exp': np.exp, 'log': np.log, 'max': max, 'min': min, 'abs': abs, 'np': np, 'float': float,
+               'self': m, 'len': len}
         env.update(EXTRA_FUNCS)
+        env.update({nm: ec.Ser(v.copy(), span) for nm, v in data0.items()})   # a series named `exp` is `exp[t]`
+        env['t'] = ec.TPos(t)
         try:
             with warnings.catch_warnings(), np.errstate(all='ignore'):
                 warnings.simplefilter('ignore')
@@ -387,6 +430,8 @@ def observe_(case, rep, want_impl=True):
 def observe(case, rep, want_impl=True):
     """`observe_` guarded: the real code doing something the harness cannot even observe (missing attribute, CODE that
     does not parse, ...) is reported as a failing input, never as an infrastructure error."""
+    if 'prog' not in case:      # whole-script (Pipeline) correspondence case: no grammar AST, nothing for this oracle
+        return None
     try:
         return observe_(case, rep, want_impl)
     except Exception as e:  # noqa: BLE001
